@@ -8,6 +8,9 @@
 //	Generated/SilentGraph.v for every function, method and package-level
 //	                        declaration the external identifiers it references,
 //	                        plus the logger-construction facts of C27
+//	Generated/Kernels.v     the small pure functions of kernels.go's table,
+//	                        translated statement by statement into Gallina
+//	Generated/KernelTie.v   the statements that each of them equals its model
 //
 // Only syntactic facts are extracted (go/parser + go/ast, identifiers resolved
 // through each file's import table and the parser's own scope resolution).
@@ -46,7 +49,16 @@ func main() {
 		os.Exit(1)
 	}
 	graph := emitGraph(pkg)
-	for name, text := range map[string]string{"Consts.v": consts, "SilentGraph.v": graph} {
+	kt := newKtrans(pkg)
+	kernels, notes := kt.emitKernels(kernelSpecs)
+	tie := kt.emitTie(kernelSpecs, notes)
+	for _, sp := range kernelSpecs {
+		if err, bad := notes[sp.name]; bad {
+			fmt.Printf("kernel %s: not translated: %v\n", sp.name, err)
+		}
+	}
+	for _, name := range []string{"Consts.v", "SilentGraph.v", "Kernels.v", "KernelTie.v"} {
+		text := map[string]string{"Consts.v": consts, "SilentGraph.v": graph, "Kernels.v": kernels, "KernelTie.v": tie}[name]
 		changed, err := writeIfChanged(filepath.Join(*out, name), text)
 		if err != nil {
 			fmt.Fprintln(os.Stderr, "bstranslate:", err)
